@@ -148,6 +148,8 @@ pub fn run_script(script: &str) -> String {
         };
         let _ = peer.drain().await;
         let mut begin_task: Option<JoinHandle<(fe2o3_amqp::connection::ConnectionHandle<()>, Result<SessionHandle<()>, String>)>> = None;
+        let mut second = false; // the begin in progress is that of the second session (`begin2`)
+        let mut sess2: Vec<SessionHandle<()>> = Vec::new();
         let mut sess: Slot<SessionHandle<()>> = Slot::None;
         let mut att_task: Option<JoinHandle<(SessionHandle<()>, Result<Lk, String>)>> = None;
         let mut link: Slot<Lk> = Slot::None;
@@ -160,6 +162,18 @@ pub fn run_script(script: &str) -> String {
                 "begin" => {
                     if begin_task.is_none() && matches!(sess, Slot::None) {
                         if let Some(mut c) = conn.take() {
+                            begin_task = Some(tokio::spawn(async move {
+                                let r = Session::begin(&mut c).await.map_err(|e| variant(&format!("{:?}", e)));
+                                (c, r)
+                            }));
+                        }
+                    }
+                }
+                "begin2" => {
+                    // a second session on the same connection, whatever the first is doing (its handle is kept alive)
+                    if begin_task.is_none() {
+                        if let Some(mut c) = conn.take() {
+                            second = true;
                             begin_task = Some(tokio::spawn(async move {
                                 let r = Session::begin(&mut c).await.map_err(|e| variant(&format!("{:?}", e)));
                                 (c, r)
@@ -358,9 +372,18 @@ pub fn run_script(script: &str) -> String {
                         Ok((c, r)) => {
                             conn = Some(c);
                             match r {
+                                Ok(s) if second => {
+                                    second = false;
+                                    sess2.push(s);
+                                    obs.push("begin2=ok".into());
+                                }
                                 Ok(s) => {
                                     sess = Slot::Have(s);
                                     obs.push("begin=ok".into());
+                                }
+                                Err(e) if second => {
+                                    second = false;
+                                    obs.push(format!("begin2=err:{}", e));
                                 }
                                 Err(e) => obs.push(format!("begin=err:{}", e)),
                             }
@@ -1507,6 +1530,65 @@ pub fn run_recv_link_model(seed: u64, n: u64, thorough: bool, corpus: &[String],
         for v in direct_oracle(&full, &format!("B0 ;  begin=ok ; A0h0r ; {}", t)) {
             let class = v.split(':').next().unwrap_or("?").to_string();
             out.violation(&class, &format!("{} | script `{}` -> {}", v, full, t), &line);
+        }
+        out.case(&line, &t);
+    }
+    out.finish(dir);
+}
+
+// ------------------------------------------------------------------------------------------
+// chanre: a channel is used again only after the session that held it has ended (C11)
+// ------------------------------------------------------------------------------------------
+
+/// fixed scripts: a second session is begun while the first one is ending in every way a session can end
+pub fn run_channel_reuse(dir: &str) {
+    crate::codec::quiet_panics();
+    let mut out = Outputs::new(dir);
+    let mut scripts: Vec<String> = Vec::new();
+    for ending in ["end", "ende", "drops", "pe ; end", "pee"] {
+        for tail in ["begin2", "begin2 ; pe", "begin2 ; pee", "begin2 ; pe ; pb", "pe ; begin2 ; pb"] {
+            scripts.push(format!("begin ; pb ; {} ; {}", ending, tail));
+            scripts.push(format!("begin ; pb ; att ; pa ; {} ; {}", ending, tail));
+        }
+    }
+    for sc in scripts {
+        let line = format!("chanre {}", sc);
+        let t = run_script(&sc);
+        // per step: wire tokens; a begin on channel c while an earlier session on c has not both written its end and
+        // received the peer's
+        let evs: Vec<&str> = sc.split(';').map(|x| x.trim()).collect();
+        let steps: Vec<&str> = t.split(';').map(|x| x.trim()).collect();
+        let mut open_on: std::collections::HashMap<String, (bool, bool)> = Default::default(); // channel -> (our end written, peer's end received)
+        for (i, e) in evs.iter().enumerate() {
+            if matches!(*e, "pe" | "pee") {
+                for st in open_on.values_mut() {
+                    st.1 = true;
+                }
+            }
+            let st = steps.get(i).cloned().unwrap_or("");
+            for tok in st.split_whitespace().next().unwrap_or("").split(',') {
+                if let Some(ch) = tok.strip_prefix('B') {
+                    let ch: String = ch.chars().take_while(|c| c.is_ascii_digit()).collect();
+                    if let Some((ours, theirs)) = open_on.get(&ch) {
+                        if !(*ours && *theirs) {
+                            out.violation(
+                                "c11-channel-reused-early",
+                                &format!("c11-channel-reused-early: a begin was written on channel {} at step {} while the session that holds it has not ended (our end written: {}, peer's end received: {}) | `{}` -> {}", ch, i, ours, theirs, sc, t),
+                                &line,
+                            );
+                        }
+                    }
+                    open_on.insert(ch, (false, false));
+                } else if let Some(ch) = tok.strip_prefix('E') {
+                    let ch: String = ch.chars().take_while(|c| c.is_ascii_digit()).collect();
+                    if let Some(st) = open_on.get_mut(&ch) {
+                        st.0 = true;
+                    }
+                }
+            }
+        }
+        if t.contains("begin2=ok") {
+            out.nontrivial(&line);
         }
         out.case(&line, &t);
     }
